@@ -10,6 +10,10 @@ use std::fmt::Write;
 
 pub const REAL_SCHEMES: [&str; 4] = ["k256", "libsecp", "ed", "comb"];
 
+/// a key that sorts after every key the generators produce (so that a value that overruns really
+/// runs into the end of the record)
+const LASTKEY: &[u8] = &[0xff, 0xff, 0xff, 0xff, 0xff, 0xff, 0xff];
+
 /// A record under construction by the independent signer: encoded key and raw value per pair.
 #[derive(Clone, Debug)]
 pub struct Spec {
@@ -81,7 +85,9 @@ pub fn rand_custom_value(rng: &mut Rng) -> Vec<u8> {
 }
 
 pub fn rand_custom_key(rng: &mut Rng) -> Vec<u8> {
-    match rng.below(8) {
+    match rng.below(10) {
+        8 => vec![0x7a; 55],
+        9 => vec![0x7a; 56],
         0 => vec![],
         1 => vec![rng.below(0x80) as u8],
         2 => vec![rng.range(0x80, 0xff) as u8],
@@ -209,6 +215,8 @@ pub struct Input {
 
 fn inp(tag: &str, expect: &'static str, buf: Vec<u8>, kind: Kind) -> Input {
     let item_len = buf.len();
+    // whatever else holds, a record of more than 300 bytes must be rejected
+    let expect = if expect == "accept" && item_len > 300 { "reject" } else { expect };
     Input {
         tag: tag.into(),
         expect,
@@ -348,6 +356,13 @@ pub fn structural_mutants(spec: &Spec, rng: &mut Rng, out: &mut Vec<Input>) {
         ("m-ip-3", b"ip", rlp_bytes(&[1, 2, 3])),
         ("m-ip-5", b"ip", rlp_bytes(&[1, 2, 3, 4, 5])),
         ("m-ip-list", b"ip", rlp_list(&[1, 2, 3, 4])),
+        ("m-ip-16", b"ip", rlp_bytes(&[9; 16])),
+        ("m-ip-6", b"ip", rlp_bytes(&[9; 6])),
+        ("m-ip6-list", b"ip6", rlp_list(&[7; 16])),
+        ("m-ip6-empty", b"ip6", rlp_bytes(&[])),
+        ("m-tcp-4bytes", b"tcp", rlp_bytes(&[1, 0, 0, 0])),
+        ("m-tcp6-65536", b"tcp6", rlp_bytes(&[1, 0, 0])),
+        ("m-udp6-empty-list", b"udp6", vec![0xc0]),
         ("m-ip-empty", b"ip", rlp_bytes(&[])),
         ("m-ip6-15", b"ip6", rlp_bytes(&[7; 15])),
         ("m-ip6-17", b"ip6", rlp_bytes(&[7; 17])),
@@ -416,23 +431,23 @@ pub fn structural_mutants(spec: &Spec, rng: &mut Rng, out: &mut Vec<Input>) {
         push("m-key-list", "reject", &s);
         // custom value: non-canonical single byte, overrunning header
         let mut s = spec.clone();
-        set(&mut s, b"zzz", vec![0x81, 0x01]);
+        set(&mut s, LASTKEY, vec![0x81, 0x01]);
         push("m-val-noncanon-single", "reject", &s);
         let mut s = spec.clone();
-        set(&mut s, b"zzz", vec![0x85, 0x01]);
+        set(&mut s, LASTKEY, vec![0x85, 0x01]);
         push("m-val-overrun", "reject", &s);
         let mut s = spec.clone();
-        set(&mut s, b"zzz", vec![0xb8, 0x03, 1, 2, 3]);
+        set(&mut s, LASTKEY, vec![0xb8, 0x03, 1, 2, 3]);
         push("m-val-longform-short", "reject", &s);
         let mut s = spec.clone();
-        set(&mut s, b"zzz", vec![0xc5, 0x01]);
+        set(&mut s, LASTKEY, vec![0xc5, 0x01]);
         push("m-val-list-overrun", "reject", &s);
         // inner bytes of a list value under an unknown key are not inspected
         let mut s = spec.clone();
-        set(&mut s, b"zzz", vec![0xc3, 0x81, 0x01, 0xff]);
+        set(&mut s, LASTKEY, vec![0xc3, 0x81, 0x01, 0xff]);
         push("o-val-list-garbage", "open", &s);
         let mut s = spec.clone();
-        set(&mut s, b"zzz", rlp_list(&[rlp_bytes(b"x"), rlp_list(&rlp_uint(300))].concat()));
+        set(&mut s, LASTKEY, rlp_list(&[rlp_bytes(b"x"), rlp_list(&rlp_uint(300))].concat()));
         push("v-val-nested", "accept", &s);
     }
     // signature item framing (signature over the unchanged content)
@@ -566,6 +581,27 @@ pub fn tampers(spec: &Spec, rng: &mut Rng, all_bits: bool, out: &mut Vec<Input>)
     // signature-level tampers
     let sig = spec.signature(true);
     if kind == Kind::Secp {
+        // the same (r, s) in ASN.1 DER instead of fixed-width r||s
+        let der_int = |b: &[u8]| {
+            let mut v: Vec<u8> = b.iter().copied().skip_while(|x| *x == 0).collect();
+            if v.is_empty() || v[0] & 0x80 != 0 {
+                v.insert(0, 0);
+            }
+            let mut o = vec![0x02, v.len() as u8];
+            o.extend_from_slice(&v);
+            o
+        };
+        let body = [der_int(&sig[..32]), der_int(&sig[32..])].concat();
+        let mut der = vec![0x30, body.len() as u8];
+        der.extend_from_slice(&body);
+        out.push(inp("t-sig-der", "reject", spec.encode_with_sig(&rlp_bytes(&der)), kind));
+        // 65-byte signature with a recovery id appended
+        out.push(inp(
+            "t-sig-recid",
+            "reject",
+            spec.encode_with_sig(&rlp_bytes(&[sig.clone(), vec![1]].concat())),
+            kind,
+        ));
         let mut hs = sig[..32].to_vec();
         hs.extend_from_slice(&secp_neg(&sig[32..]));
         out.push(inp("t-high-s", "reject", spec.encode_with_sig(&rlp_bytes(&hs)), kind));
@@ -723,6 +759,23 @@ pub fn gen_dec(rng: &mut Rng, thorough: bool, out: &mut String) {
             tampers(&spec, rng, thorough && r < 6, &mut inputs);
         }
     }
+    // records that carry a valid key of BOTH schemes, signed by either
+    for r in 0..(if thorough { 12 } else { 4 }) {
+        let signer_kind = if r % 2 == 0 { Kind::Secp } else { Kind::Ed };
+        let other_kind = if r % 2 == 0 { Kind::Ed } else { Kind::Secp };
+        let signer = IndKey::gen(rng, signer_kind);
+        let other = IndKey::gen(rng, other_kind);
+        let pairs = vec![(other.enr_key().to_vec(), rlp_bytes(&other.public()))];
+        let spec = Spec::new(*rng.pick(&SEQS), pairs, signer);
+        // secp-signed: every secp type and comb accept, ed rejects (signature is not the ed key's);
+        // ed-signed: ed accepts, comb must verify against the secp entry and reject: left open
+        inputs.push(inp(
+            if signer_kind == Kind::Secp { "v-both-keys-secp-signed" } else { "o-both-keys-ed-signed" },
+            if signer_kind == Kind::Secp { "accept" } else { "open" },
+            spec.encode(r % 4 < 2),
+            signer_kind,
+        ));
+    }
     // presence combinations of the six address/port keys
     for mask in 0..64 {
         let kind = if mask % 2 == 0 { Kind::Secp } else { Kind::Ed };
@@ -794,13 +847,14 @@ pub fn gen_stream(rng: &mut Rng, thorough: bool, out: &mut String) {
         let spec = if r < n_sized { sized[r].0.clone() } else { rand_spec(rng, kind) };
         let (tag0, exp0) = if r < n_sized { ("v-size", sized[r].1) } else { ("v-random", "accept") };
         let mut base: Vec<Input> = vec![inp(tag0, exp0, spec.encode(false), kind)];
-        if r % 3 == 0 {
+        if r % 3 == 0 || r < n_sized + 4 {
             let mut m = Vec::new();
             structural_mutants(&spec, rng, &mut m);
             // keep only complete single items (an item that overruns is not "a complete item")
             for x in m {
                 if let Some((_, h, p)) = rlp_peek(&x.buf) {
-                    if h + p == x.buf.len() && rng.chance(1, 4) {
+                    let always = x.tag.contains("outer") || x.tag.contains("overrun") || x.tag.contains("missing");
+                    if h + p == x.buf.len() && (always || rng.chance(1, 4)) {
                         base.push(x);
                     }
                 }
@@ -952,6 +1006,40 @@ pub fn b64(b: &[u8]) -> String {
 }
 
 fn parse_obs<S: Sch>(text: &str, json: bool, out: &mut String) {
+    if json {
+        // the same JSON document through every way serde_json can hand the string over: borrowed
+        // from a str, from a Value, from a reader, and with the first character written as an escape
+        let escaped = {
+            let inner = &text[1..text.len().saturating_sub(1).max(1)];
+            match inner.chars().next() {
+                Some(c) if c.is_ascii() && text.len() > 2 => {
+                    format!("\"\\u{:04x}{}\"", c as u32, &inner[c.len_utf8()..])
+                }
+                _ => text.to_string(),
+            }
+        };
+        let routes = guard(|| {
+            let a = serde_json::from_str::<Enr<S::K>>(text).ok();
+            let b = serde_json::from_str::<serde_json::Value>(text)
+                .ok()
+                .and_then(|v| serde_json::from_value::<Enr<S::K>>(v).ok());
+            let c = serde_json::from_reader::<_, Enr<S::K>>(text.as_bytes()).ok();
+            let d = serde_json::from_str::<Enr<S::K>>(&escaped).ok();
+            [a, b, c, d]
+        });
+        if let Some(rs) = &routes {
+            let oks: Vec<bool> = rs.iter().map(|r| r.is_some()).collect();
+            if oks.iter().any(|x| *x) && !oks.iter().all(|x| *x) {
+                writeln!(
+                    out,
+                    "out res=mixed:{}",
+                    oks.iter().map(|b| if *b { '1' } else { '0' }).collect::<String>()
+                )
+                .unwrap();
+                return;
+            }
+        }
+    }
     let r = guard(|| {
         if json {
             serde_json::from_str::<Enr<S::K>>(text).map_err(|e| e.to_string())
